@@ -28,7 +28,7 @@ Variants(v) ==
 Init == mode = "seed" /\ n \in 1..SEEDS /\ sp = <<>> /\ ws = " "
 Next == \/ /\ mode = "seed" /\ mode' = "value" /\ n' \in Part(Values, n, SEEDS) /\ UNCHANGED <<sp, ws>>
         \/ /\ mode = "value" /\ mode' = "case" /\ sp' \in Variants(n) /\ UNCHANGED <<n, ws>>
-        \/ /\ mode = "value" /\ mode' = "lexws" /\ sp' = AllSp(NarseseToks(n), 1) /\ ws' \in {"\t", "\n", "　"} /\ UNCHANGED n
+        \/ /\ mode = "value" /\ mode' = "lexws" /\ sp' = AllSp(NarseseToks(n), 1) /\ ws' \in (Rng(Cls.unicode_ws) \ {" "}) /\ UNCHANGED n        \* every White_Space character the dump knows
 
 Text == Render(NarseseToks(n), sp)
 SpacingIrrelevant == mode = "case" => Parse(Text) = OkRes(n)
